@@ -62,7 +62,11 @@ def call_for(cfg, n, num_procs):
                   num_RC=(max(2, min(n - 1, 8)) if cfg["numrc"] == "fixed" else 0),
                   num_F_ext_evaluations={"neg": -10, "zero": 0, "pos": 10}[cfg["fext"]],
                   rapid_F_ext_evaluations=cfg["rapid"], num_procs=num_procs, timeout=120)
-        return (lambda: pyimpspec.perform_kramers_kronig_test(data, **kw)), {}
+        extra = {}
+        if cfg["fext"] == "pos" and cfg["test"] != "cnls":
+            # the top-level Progress of evaluate_log_F_ext follows the accounting transcribed in Progress.tla
+            extra = {"entry": "kk-custom", "opts": {"n": 10}}
+        return (lambda: pyimpspec.perform_kramers_kronig_test(data, **kw)), extra
     if e == "zhit":
         kw = dict(smoothing=cfg["smoothing"], interpolation=cfg["interpolation"], admittance=cfg["admittance"], num_procs=num_procs)
         if cfg["window"] == "custom":
@@ -109,7 +113,7 @@ def run_config(arg):
     warnings.simplefilter("ignore")
     t0 = time.time()
     fn, extra = call_for(cfg, n, num_procs)
-    call = {"ev": "call", "entry": cfg["entry"], "opts": extra.get("opts", {"none": 0}), "nwin": extra.get("nwin", 0)}
+    call = {"ev": "call", "entry": extra.get("entry", cfg["entry"]), "opts": extra.get("opts", {"none": 0}), "nwin": extra.get("nwin", 0)}
     with record() as rec:
         try:
             with np.errstate(all="ignore"):
